@@ -6,7 +6,7 @@ package rules
 // width option words and type masks, exception flag, symbolic list lengths).
 
 func verifC07Rule(p string) *NetworkRule {
-	r := verifSymRule(p, 1)
+	r := verifSymRule(p, 2)
 	verifAssume(verifRequestTypesOK(r))
 	return verifRealize(r, "||example.org^")
 }
